@@ -545,6 +545,11 @@ func (a *IPAllocator) SetAllocation(subscriberID string, prefix *net.IPNet) erro
 
 	// Clear any existing allocation for this subscriber
 	if oldIdx, exists := a.allocated[subscriberID]; exists {
+		if oldIdx == idx {
+			// Same record applied again (e.g. a store replay): nothing changes,
+			// in particular the allocation must not be counted twice
+			return nil
+		}
 		if oldIdx != idx {
 			a.bitmap.SetBit(a.bitmap, int(oldIdx), 0)
 			delete(a.indexToSubscriber, oldIdx)
